@@ -2,15 +2,28 @@
    Property theorems only; each closed with [exact] and followed by Print Assumptions.
    Every theorem quantifies over ALL string-level phases (raw issue type, basic, full, banned, nonempty,
    temporal, mapping issues): the property is relative to string-level validation.
-   The code as it now is = cf_fixed (f83491d), no reference scrambling (fd59dc0, cf_has_refs = false),
-   cf_fix_none / cf_fix_value / cf_fix_mask (fix-F2, fix-F3, fix-F4) all true.  Part 1 states the theorems
-   about that code; part 2 keeps the refutations for the unrepaired behaviour as the record of the defects. *)
+   The code as it is (/repo) = the model run with
+     cf_fixed = true       unit names looked up case-insensitively            (fix commit f83491d)
+     cf_has_refs = false   curly-brace references spliced positionally        (fix commit fd59dc0)
+     cf_fix_none = true    a Delay value without conversion stays in its row  (fix commit ef31cc7, was C07-F2)
+     cf_fix_value = true   a non-numeric Delay value / onset stays in its row (fix commit e4bce88, was C07-F3)
+     cf_fix_mask = true    onset mask of _run_checks indexed by row label     (fix commit c357095, was C07-F4)
+   which is what the harness runs by default.  Part 1 states the theorems about that code; part 2 keeps, as RECORDS
+   of repaired defects ("behaviour before fix commit <hash>"), the refutations for the switches set to false --
+   none of them says anything about the present implementation.
+   WHAT IS NOT PROVED HERE (see also ASSUMPTIONS in harness/c07.py):
+   * the string-level validator is a family of TOTAL Section variables: "never raises" is proved for the file-level
+     plumbing only; exceptions of string validation itself (e.g. the IndexError on "(),()" repaired by 3e47c8c)
+     are outside the model and are covered by testing through the real validator (degenerate cell pool);
+   * the kind of column labels (numbers of a headerless file, repaired sort_issues TypeError 2e53521) and the
+     case-insensitive matching of definition names by the temporal bookkeeping: tested only;
+   * the history theorems hold by construction of the operation-sequence model; tied to the code by testing. *)
 From Coq Require Import List ZArith NArith Permutation.
 From HV Require Import Base.Res Model.FileValidate Proofs.FileValidateProofs Proofs.FileValidateShuffle
   Proofs.FileValidateHistory.
 Import ListNotations.
 
-(* ================================ part 1: the code as it now is ================================ *)
+(* ================================ part 1: the code as it is in /repo ================================ *)
 
 (* ---- never raises: for ALL tables, relative only to totality of the Section variables ----------- *)
 Theorem C07_file_never_raises :
@@ -70,27 +83,90 @@ Proof. exact validate_cell_errors_kept. Qed.
 Print Assumptions C07_cell_errors_kept.
 
 (* ---- rows whose cells are error-free: exactly the string-level issues ---------------------------
-   The basic/full/banned issues labelled with the row are (as a multiset) the basic issues of its cells
-   followed by the full-string issues of its annotation (row_payload): a row with a numeric onset is validated
-   as the row without its movable Delay groups plus each moved Delay group; a row without a numeric onset as
-   the string assembled from its cells (plus the banned temporal tags).  With fix-F4 (cf_fix_mask = true) NO
-   hypothesis on the onsets is needed; for the unrepaired mask the onsets must all be numeric.  Remaining
-   hypotheses: no scrambling, effective times pairwise distinct (no same-time merging).  Temporal issues are
-   tagged STemporal and are not part of this equation. *)
+   (1) C07_row_equals_string: the basic/full/banned issues labelled with the row are (as a multiset) the basic issues of
+   its cells followed by row_payload: for a row with a numeric onset, `full` of each STRING THE IMPLEMENTATION VALIDATES
+   -- the row without its movable Delay groups (PRem) and each moved Delay group (PDelay) -- and for a row without a
+   numeric onset `full` and `banned` of the string assembled from its cell objects (PJoin).  No hypothesis on the onsets
+   (mask by row label, c357095).  Hypotheses: no scrambling (holds since fd59dc0), effective times pairwise distinct.
+   Temporal issues are tagged STemporal and are not part of this equation.
+   (2) The clause of the statement speaks of the row's ASSEMBLED annotation [PCells ids].  That is proved
+       - unconditionally for rows without Delay text: C07_row_equals_assembled_no_delay;
+       - for rows WITH Delay groups only RELATIVE to [delay_split_neutral], a property of the STRING validator
+         (issues of an annotation = issues of the annotation without some top-level Delay groups + issues of each of these
+         groups): C07_row_equals_assembled.  `full` is an opaque Section variable, so this property cannot be proved here;
+         it is TESTED on the implementation: the oracle clause row-equals-string compares the file report with
+         HedValidator.validate of the whole assembled row, Delay groups included. *)
 Theorem C07_row_equals_string :
   forall (raw : Type) (raw_is_error : raw -> bool) (basic : N -> list raw) (full banned : ann -> list raw)
          (nonempty : ann -> bool) (tstate : Type) (temporal : tstate -> ann -> tstate * list raw)
          (tinit : tstate) (pre post : list raw) (cfg : config) (t : list row) (l : list (issue raw))
          (k : nat) (r : row),
+    cf_fix_mask cfg = true ->
     validate raw raw_is_error basic full banned nonempty tstate temporal tinit pre post cfg t = Ok l ->
-    cf_has_onset cfg = true -> no_scramble cfg t ->
-    cf_fix_mask cfg = true \/ Forall (fun r0 => r_onset r0 <> None) t ->
-    distinct_times cfg t ->
+    cf_has_onset cfg = true -> no_scramble cfg t -> distinct_times cfg t ->
     nth_error t k = Some r -> cells_error_free raw raw_is_error basic r ->
     Permutation (string_raws raw l (k + row_adj cfg))
                 (flat_map basic (ids_of (r_body r)) ++ row_payload raw full banned nonempty cfg r).
-Proof. exact validate_row_equals_string. Qed.
+Proof. exact validate_row_equals_string_current. Qed.
 Print Assumptions C07_row_equals_string.
+
+Theorem C07_row_equals_assembled_no_delay :
+  forall (raw : Type) (raw_is_error : raw -> bool) (basic : N -> list raw) (full banned : ann -> list raw)
+         (nonempty : ann -> bool) (tstate : Type) (temporal : tstate -> ann -> tstate * list raw)
+         (tinit : tstate) (pre post : list raw) (cfg : config) (t : list row) (l : list (issue raw))
+         (k : nat) (r : row) (z : Z),
+    cf_fix_mask cfg = true ->
+    validate raw raw_is_error basic full banned nonempty tstate temporal tinit pre post cfg t = Ok l ->
+    cf_has_onset cfg = true -> no_scramble cfg t -> distinct_times cfg t ->
+    nth_error t k = Some r -> cells_error_free raw raw_is_error basic r ->
+    r_onset r = Some z -> b_delaytext (r_body r) = false ->
+    Permutation (string_raws raw l (k + row_adj cfg))
+                (flat_map basic (ids_of (r_body r)) ++ sl raw full nonempty [PCells (ids_of (r_body r))]).
+Proof. exact validate_row_equals_assembled_no_delay_current. Qed.
+Print Assumptions C07_row_equals_assembled_no_delay.
+
+Theorem C07_row_equals_assembled :
+  forall (raw : Type) (raw_is_error : raw -> bool) (basic : N -> list raw) (full banned : ann -> list raw)
+         (nonempty : ann -> bool) (tstate : Type) (temporal : tstate -> ann -> tstate * list raw)
+         (tinit : tstate) (pre post : list raw) (cfg : config) (t : list row) (l : list (issue raw))
+         (k : nat) (r : row) (z : Z),
+    delay_split_neutral raw full nonempty ->
+    cf_fix_mask cfg = true ->
+    validate raw raw_is_error basic full banned nonempty tstate temporal tinit pre post cfg t = Ok l ->
+    cf_has_onset cfg = true -> no_scramble cfg t -> distinct_times cfg t ->
+    nth_error t k = Some r -> cells_error_free raw raw_is_error basic r -> r_onset r = Some z ->
+    Permutation (string_raws raw l (k + row_adj cfg))
+                (flat_map basic (ids_of (r_body r)) ++ sl raw full nonempty [PCells (ids_of (r_body r))]).
+Proof. exact validate_row_equals_assembled_current. Qed.
+Print Assumptions C07_row_equals_assembled.
+
+(* ---- row labels of the issues that carry no column ---------------------------------------------------
+   C07_row_classified (every table, no hypothesis): an issue has NO row exactly when it concerns the file as a whole
+   (mapping issues, unknown column references, the out-of-order warning); every cell, key, full-string, banned-tag and
+   temporal issue carries the row = index + 1 + header of an existing file row.
+   C07_row_level_labels: each full-string / banned-tag / temporal issue is labelled with the file row whose OWN
+   annotation (the string assembled from its cells, or one of the pieces it is split into) produced it
+   (no scrambling, distinct effective times = no same-time merging; with merging the label is the first row of the
+   merged group, which is not covered). *)
+Theorem C07_row_classified :
+  forall (raw : Type) (raw_is_error : raw -> bool) (basic : N -> list raw) (full banned : ann -> list raw)
+         (nonempty : ann -> bool) (tstate : Type) (temporal : tstate -> ann -> tstate * list raw)
+         (tinit : tstate) (pre post : list raw) (cfg : config) (t : list row) (l : list (issue raw)),
+    validate raw raw_is_error basic full banned nonempty tstate temporal tinit pre post cfg t = Ok l ->
+    Forall (row_classified raw cfg t) l.
+Proof. exact validate_row_classified. Qed.
+Print Assumptions C07_row_classified.
+
+Theorem C07_row_level_labels :
+  forall (raw : Type) (raw_is_error : raw -> bool) (basic : N -> list raw) (full banned : ann -> list raw)
+         (nonempty : ann -> bool) (tstate : Type) (temporal : tstate -> ann -> tstate * list raw)
+         (tinit : tstate) (pre post : list raw) (cfg : config) (t : list row) (l : list (issue raw)),
+    cf_fix_mask cfg = true ->
+    validate raw raw_is_error basic full banned nonempty tstate temporal tinit pre post cfg t = Ok l ->
+    cf_has_onset cfg = true -> no_scramble cfg t -> distinct_times cfg t ->
+    Forall (row_level_located raw full banned tstate temporal cfg t) l.
+Proof. exact validate_row_level_located_current. Qed.
+Print Assumptions C07_row_level_labels.
 
 (* ---- shuffling ---------------------------------------------------------------------------------- *)
 Theorem C07_unordered_warning_once :
@@ -130,23 +206,22 @@ Example C07_shuffle_close_onsets :
                Permutation (idents nat 2 t_close l) (idents nat 2 (rev t_close) l').
 Proof. exact shuffle_close_onsets. Qed.
 
-(* without the hypothesis on the onsets (repaired mask): the string-level payload of every row with error-free
-   cells follows the row to its new position *)
+(* without any hypothesis on the onsets (mask by row label, c357095): the string-level payload of every row with
+   error-free cells follows the row to its new position *)
 Theorem C07_shuffle_rows_follow :
   forall (raw : Type) (raw_is_error : raw -> bool) (basic : N -> list raw) (full banned : ann -> list raw)
          (nonempty : ann -> bool) (tstate : Type) (temporal : tstate -> ann -> tstate * list raw)
          (tinit : tstate) (pre post : list raw) (cfg : config) (t t' : list row) (l l' : list (issue raw))
          (k k' : nat) (r : row),
-    Permutation t t' ->
+    cf_fix_mask cfg = true -> Permutation t t' ->
     validate raw raw_is_error basic full banned nonempty tstate temporal tinit pre post cfg t = Ok l ->
     validate raw raw_is_error basic full banned nonempty tstate temporal tinit pre post cfg t' = Ok l' ->
     cf_has_onset cfg = true -> no_scramble cfg t -> no_scramble cfg t' ->
-    cf_fix_mask cfg = true \/ Forall (fun r0 => r_onset r0 <> None) t ->
     distinct_times cfg t -> distinct_times cfg t' ->
     nth_error t k = Some r -> nth_error t' k' = Some r ->
     cells_error_free raw raw_is_error basic r ->
     Permutation (string_raws raw l (k + row_adj cfg)) (string_raws raw l' (k' + row_adj cfg)).
-Proof. exact validate_shuffle_rows_follow. Qed.
+Proof. exact validate_shuffle_rows_follow_current. Qed.
 Print Assumptions C07_shuffle_rows_follow.
 
 (* non-vacuity of the shuffle theorem: an unsorted table (with a moved Delay group and a row with a cell error)
@@ -228,9 +303,10 @@ Example C07_headerless_example :
   = Ok [mk (SFull 2) (Some 1) None; mk (SBasic 3) (Some 1) (Some 1%N)].
 Proof. exact headerless_example. Qed.
 
-(* ================== part 2: records of the repaired defects (unrepaired behaviour) ================== *)
+(* ====== part 2: RECORDS of repaired defects -- behaviour BEFORE the named fix commits; nothing here describes
+          the present /repo (the harness runs these switches only with VERIF_C07_FIXED=0 on an unpatched tree) ====== *)
 
-(* Finding 6 (was C07-F1; repaired by f83491d): "(Delay/2 Seconds,(Red))" raised TypeError under the verbatim
+(* Finding 6 (was C07-F1); behaviour before fix commit f83491d: "(Delay/2 Seconds,(Red))" raised TypeError under the verbatim
    unit lookup (cf_fixed = false); with the repaired lookup the same table validates. *)
 Theorem C07_file_never_raises_refuted :
   exists t, Forall (fun r => r_onset r <> None) t /\
@@ -240,7 +316,7 @@ Theorem C07_file_never_raises_refuted :
 Proof. exact never_raises_refuted. Qed.
 Print Assumptions C07_file_never_raises_refuted.
 
-(* between f83491d and fix-F2/F3: numeric onsets and numeric Delay values with an accepted spelling of a unit
+(* behaviour between fix commits f83491d and ef31cc7/e4bce88: numeric onsets and numeric Delay values with an accepted spelling of a unit
    that has a conversion factor never raised *)
 Theorem C07_file_never_raises_fixed :
   forall (raw : Type) (raw_is_error : raw -> bool) (basic : N -> list raw) (full banned : ann -> list raw)
@@ -253,7 +329,7 @@ Theorem C07_file_never_raises_fixed :
 Proof. exact validate_never_raises_fixed. Qed.
 Print Assumptions C07_file_never_raises_fixed.
 
-(* was C07-F2 (repaired by fix-F2): "(Delay/2 years,(Red))" -- accepted unit without conversion factor -- raised
+(* was C07-F2; behaviour before fix commit ef31cc7: "(Delay/2 years,(Red))" -- accepted unit without conversion factor -- raised
    TypeError; the repaired code validates the same table. *)
 Theorem C07_file_never_raises_no_factor_refuted :
   w_validate (cfg0 false true false) t_years = Exn TypeError /\
@@ -261,7 +337,7 @@ Theorem C07_file_never_raises_no_factor_refuted :
 Proof. exact never_raises_no_factor_refuted. Qed.
 Print Assumptions C07_file_never_raises_no_factor_refuted.
 
-(* was C07-F3 (repaired by fix-F3): a non-numeric Delay value or a Delay group in a row with n/a onset raised
+(* was C07-F3; behaviour before fix commit e4bce88: a non-numeric Delay value or a Delay group in a row with n/a onset raised
    ValueError; the repaired code validates the same tables. *)
 Theorem C07_file_never_raises_value_refuted :
   w_validate (cfg0 false true false) t_abc = Exn ValueError /\
@@ -271,7 +347,7 @@ Theorem C07_file_never_raises_value_refuted :
 Proof. exact never_raises_value_refuted. Qed.
 Print Assumptions C07_file_never_raises_value_refuted.
 
-(* was C07-F5 (repaired by fd59dc0): with a curly-brace reference and an unsorted file the index-label
+(* was C07-F5; behaviour before fix commit fd59dc0: with a curly-brace reference and an unsorted file the index-label
    alignment put the labels wrong (cell of file row 3 reported at row 2). *)
 Theorem C07_labels_refuted :
   exists l, w_validate (cfg0 true true false) t_refs = Ok l /\
@@ -279,7 +355,7 @@ Theorem C07_labels_refuted :
 Proof. exact true_location_refuted. Qed.
 Print Assumptions C07_labels_refuted.
 
-(* was C07-F4 (repaired by fix-F4): with an n/a onset and the positional mask the equation failed although every
+(* was C07-F4; behaviour before fix commit c357095 (positional mask): with an n/a onset and the positional mask the equation failed although every
    other hypothesis holds (the row-level issue of file row 2 was lost). *)
 Theorem C07_row_equals_string_na_refuted :
   exists l, w_validate (cfg0 false true false) t_na = Ok l /\
@@ -290,3 +366,19 @@ Theorem C07_row_equals_string_na_refuted :
                  ++ row_payload nat w_full w_banned w_nonempty (cfg0 false true false) (plain_row None 5)).
 Proof. exact row_equals_string_na_refuted. Qed.
 Print Assumptions C07_row_equals_string_na_refuted.
+
+(* behaviour before fix commit c357095 (cf_fix_mask = false, positional mask): the row equation needed every onset of
+   the file to be numeric (and fails otherwise, C07_row_equals_string_na_refuted above) *)
+Theorem C07_row_equals_string_before_c357095 :
+  forall (raw : Type) (raw_is_error : raw -> bool) (basic : N -> list raw) (full banned : ann -> list raw)
+         (nonempty : ann -> bool) (tstate : Type) (temporal : tstate -> ann -> tstate * list raw)
+         (tinit : tstate) (pre post : list raw) (cfg : config) (t : list row) (l : list (issue raw))
+         (k : nat) (r : row),
+    Forall (fun r0 => r_onset r0 <> None) t ->
+    validate raw raw_is_error basic full banned nonempty tstate temporal tinit pre post cfg t = Ok l ->
+    cf_has_onset cfg = true -> no_scramble cfg t -> distinct_times cfg t ->
+    nth_error t k = Some r -> cells_error_free raw raw_is_error basic r ->
+    Permutation (string_raws raw l (k + row_adj cfg))
+                (flat_map basic (ids_of (r_body r)) ++ row_payload raw full banned nonempty cfg r).
+Proof. exact validate_row_equals_string_positional. Qed.
+Print Assumptions C07_row_equals_string_before_c357095.
